@@ -54,7 +54,8 @@ def run(prog, world, sem, rep):
         det = "remove(%s) at line %d %s the recount at line %d" % (keyl[4] if keyl else None, h.body.blocks[rm[0]].term.line, "dominates" if be.cfg.dominates(rm[0], cbb) else "does not dominate", h.body.blocks[cbb].term.line)
     rep.ob("C13.b", "remove precedes recount", ok, det, where(h.body))
     r0 = be.cfg.reach([0], stop=set(rm))
-    oks0 = [bb for (bb, idx, kind, x) in sem.ret_sites(be) if kind == "ok" and bb in h.blocks]
+    # (a handler that ends in `helper(..)` - the helper builds the Response - can succeed at that exit: it counts as a success exit)
+    oks0 = [bb for (bb, idx, kind, x) in sem.ret_sites(be) if kind in ("ok", "call") and bb in h.blocks]
     rep.ob("C13.f", "every success exit passes the registry removal", bool(rm) and bool(oks0) and not any(b in r0 for b in oks0),
            "RemoveValidator can report success without having removed the validator from the registry" if (not rm or any(b in r0 for b in oks0)) else "all success exits after REGISTRY.remove", where(h.body))
     cpath = counters[0].body.path if counters else None
@@ -73,7 +74,7 @@ def run(prog, world, sem, rep):
                 if any(fne(f, h.resolve) for f in fl):
                     pe.add((blk.idx, succ))
     r = be.cfg.reach([0], removed=pe)
-    oks = [bb for (bb, idx, kind, x) in sem.ret_sites(be) if kind == "ok" and bb in h.blocks]
+    oks = [bb for (bb, idx, kind, x) in sem.ret_sites(be) if kind in ("ok", "call") and bb in h.blocks]
     rep.ob("C13.b", "never removes the last validator", bool(pe) and bool(oks) and not any(b in r for b in oks),
            "a success exit is reachable without observing a non-empty remaining list" if (not pe or any(b in r for b in oks)) else "all %d success exits behind !remaining.is_empty()" % len(oks), where(h.body))
     # ---- C13.c  (the planner call and the message construction may sit in the handler or in a helper it calls)
@@ -147,7 +148,8 @@ def run(prog, world, sem, rep):
     ret = world.ret_expr(h.body)
     ordered = False
     det = "anchor-lost: response message list"
-    seqs = [s for alt in world._ok_alts(ret, "ok", 0, False) for s in response_sequences(world, h.resolve(alt))]
+    # (the Response may be built by a helper the handler ends in: the helper's own Ok alternatives)
+    seqs = [s for alt in world._ok_alts(ret, "ok", 0, True) for s in response_sequences(world, h.resolve(alt))]
     if seqs:
         kinds = []
         for s in seqs:
